@@ -6,6 +6,7 @@
 import NoirVerif.Lemmas.HashJoin
 import NoirVerif.Lemmas.KeyedJoin
 import NoirVerif.Lemmas.JoinShip
+import NoirVerif.Lemmas.SortMergeJoin
 namespace Noir.Join
 
 variable {κ α β : Type} [DecidableEq κ]
@@ -37,6 +38,24 @@ theorem hashJoin_resets (v : Variant) (kl : α → κ) (kr : β → κ) (L : Lis
   rw [HashJoin.stateOf_init] at this
   simp only [this]
   simp [HashJoin.farOk, HashJoin.step, HashJoin.stateOf, HashJoin.State.init, HashJoin.Side.empty]
+
+/-- **C08 (one whole iteration on the stream level).** Feeding `JoinLocalHash` the items of any such
+    interleaving followed by `FlushAndRestart` yields the join tuples (a permutation of `relJoin`), then
+    `FlushAndRestart`; no element hits a panic branch; the operator is back in its initial state. -/
+theorem hashJoin_iteration (v : Variant) (kl : α → κ) (kr : β → κ) (L : List α) (R : List β)
+    (tr : List (Bin α β))
+    (h : Interleave (L.map Bin.left ++ [Bin.leftEnd]) (R.map Bin.right ++ [Bin.rightEnd]) tr) :
+    let es := tr.map Elem.item ++ [Elem.far]
+    HashJoin.runElems v kl kr HashJoin.State.init es = (HashJoin.run v kl kr tr).map Elem.item ++ [Elem.far]
+      ∧ (HashJoin.run v kl kr tr).Perm (relJoin v kl kr L R)
+      ∧ HashJoin.anyPanic v kl kr HashJoin.State.init es = false
+      ∧ HashJoin.stateAfter v kl kr HashJoin.State.init es = HashJoin.State.init := by
+  obtain ⟨r1, r2, r3⟩ := HashJoin.runElems_items v kl kr tr [Elem.far] HashJoin.State.init
+  obtain ⟨f1, f2⟩ := hashJoin_resets v kl kr L R tr h
+  refine ⟨?_, hashJoin_correct v kl kr L R tr h, ?_, ?_⟩
+  · rw [r1]; simp [HashJoin.runElems, HashJoin.run, f2]
+  · rw [r3]; simp [HashJoin.anyPanic, HashJoin.panics, f1]
+  · rw [r2]; simp [HashJoin.stateAfter, f2]
 
 /-- `relJoin` written out: membership characterisation (what "the relational join" means). -/
 theorem relJoin_mem (v : Variant) (kl : α → κ) (kr : β → κ) (L : List α) (R : List β) (o : Out κ α β) :
@@ -95,6 +114,36 @@ theorem relJoinInner_eq (L : List (κ × α)) (R : List (κ × β)) :
     simp only [List.flatMap_cons, List.filterMap_append, ih]
     congr 1
     simp [List.filterMap_map, Function.comp_def]
+
+/-! ### Sort-merge join -/
+
+/-- **C08 (local sort-merge join).** For every variant and every interleaving, `JoinLocalSortMerge`
+    (keys ordered, here `Int`) emits exactly the relational join — all of it when the second end
+    marker arrives (descending merge of the two sorted vectors with the `last_left_key` test deciding
+    which right elements are unmatched) —, the `assert!`s of the `FlushAndRestart` arm hold, and
+    `FlushAndRestart` restores the initial state. -/
+theorem sortMergeJoin_correct (v : Variant) (kl : α → Int) (kr : β → Int) (L : List α) (R : List β)
+    (tr : List (Bin α β))
+    (h : Interleave (L.map Bin.left ++ [Bin.leftEnd]) (R.map Bin.right ++ [Bin.rightEnd]) tr) :
+    (SortMerge.run v kl kr tr).Perm (relJoin v kl kr L R)
+      ∧ SortMerge.farOk (SortMerge.stateAfterBin v kl kr SortMerge.State.init tr) = true
+      ∧ SortMerge.far (SortMerge.stateAfterBin v kl kr SortMerge.State.init tr) = SortMerge.State.init := by
+  have hinit : SortMerge.smStateOf kl kr false false ([] : List α) ([] : List β) = SortMerge.State.init := by
+    simp [SortMerge.smStateOf, SortMerge.State.init]
+  obtain ⟨h1, h2, h3⟩ := SortMerge.feed_interleaving v kl kr tr false false [] L [] R rfl
+    (fun h => by cases h) (fun h => by cases h) h
+  rw [hinit] at h1 h2 h3
+  refine ⟨?_, h2, h3⟩
+  rw [SortMerge.run, h1]
+  simpa using SortMerge.finalOut_perm v kl kr L R
+
+/-- Non-vacuity (sort-merge, outer, duplicate and one-sided keys, left side ending first). -/
+example :
+    SortMerge.run .outer (fun x : Int × Nat => x.1) (fun x : Int × Nat => x.1)
+      [.left (1, 20), .right (1, 10), .left (2, 21), .leftEnd, .right (3, 11), .right (1, 12), .rightEnd]
+      = [(3, none, some (3, 11)), (2, some (2, 21), none), (1, some (1, 20), some (1, 12)),
+         (1, some (1, 20), some (1, 10))] := by
+  decide
 
 /-! ### Shipping -/
 
